@@ -105,6 +105,10 @@ enum Dest {
     /// as Old / None, plus a stale `.svspart` (longer than any content) left by an earlier killed pull
     OldStale,
     NoneStale,
+    /// destination absent and its parent directory missing: the temp file cannot be created
+    NoParent,
+    /// destination absent, reached through a symlinked parent directory
+    SymParent,
 }
 impl Dest {
     fn stale(self) -> bool {
@@ -113,7 +117,7 @@ impl Dest {
     fn base(self) -> Dest {
         match self {
             Dest::OldStale => Dest::Old,
-            Dest::NoneStale => Dest::None,
+            Dest::NoneStale | Dest::NoParent | Dest::SymParent => Dest::None,
             d => d,
         }
     }
@@ -208,6 +212,8 @@ impl Script {
                 Dest::Dir => "dir",
                 Dest::OldStale => "olds",
                 Dest::NoneStale => "nones",
+                Dest::NoParent => "noparent",
+                Dest::SymParent => "symparent",
             },
             match &self.dec {
                 Dec::Na => "-".to_string(),
@@ -252,6 +258,8 @@ impl Script {
                     "none" => Dest::None,
                     "olds" => Dest::OldStale,
                     "nones" => Dest::NoneStale,
+                    "noparent" => Dest::NoParent,
+                    "symparent" => Dest::SymParent,
                     _ => Dest::Dir,
                 },
                 dec: match w[8] {
@@ -285,7 +293,7 @@ impl Script {
     /// SPECIFICATION (property text, evaluated here independently of the Lean model): the content that
     /// must be published; `None` = the script is a failing one and nothing may be published.
     fn expected_content(&self) -> Option<Vec<u8>> {
-        if self.open != Open::Ok || !self.puller.tags_ok(self.zstd, self.beve) || self.dest == Dest::Dir || self.sync_fault {
+        if self.open != Open::Ok || !self.puller.tags_ok(self.zstd, self.beve) || self.dest == Dest::Dir || self.dest == Dest::NoParent || self.sync_fault {
             return None;
         }
         if self.puller.verifies() && !self.verify_ok {
@@ -526,6 +534,15 @@ struct Seen {
     trailer: Vec<u8>,
 }
 
+/// Run once from inside the caller-supplied `verify` (the temp file exists and is complete then).
+static VERIFY_HOOK: Mutex<Option<Box<dyn FnOnce() + Send>>> = Mutex::new(None);
+fn run_verify_hook() {
+    let h = VERIFY_HOOK.lock().unwrap().take();
+    if let Some(h) = h {
+        h();
+    }
+}
+
 fn rej() -> RepeError {
     RepeError::Io(std::io::Error::other("verification rejected"))
 }
@@ -545,6 +562,7 @@ fn call_puller(
     let v1 = {
         let seen = seen.clone();
         move |d: Vec<u8>| {
+            run_verify_hook();
             let mut s = seen.lock().unwrap();
             s.called = true;
             s.digest = d;
@@ -554,6 +572,7 @@ fn call_puller(
     let v2 = {
         let seen = seen.clone();
         move |d: Vec<u8>, t: &[u8]| {
+            run_verify_hook();
             let mut s = seen.lock().unwrap();
             s.called = true;
             s.digest = d;
@@ -650,7 +669,19 @@ fn tmp_present(dest: &Path) -> bool {
 fn prepare(dir: &Path, d: Dest) -> PathBuf {
     let _ = std::fs::remove_dir_all(dir);
     std::fs::create_dir_all(dir).expect("case dir");
-    let dest = dir.join("out.bin");
+    prepare_named(dir, "out.bin", d)
+}
+
+fn prepare_named(dir: &Path, name: &str, d: Dest) -> PathBuf {
+    let dest = match d {
+        Dest::NoParent => dir.join("missing").join(name),
+        Dest::SymParent => {
+            std::fs::create_dir_all(dir.join("real")).unwrap();
+            let _ = std::os::unix::fs::symlink(dir.join("real"), dir.join("link"));
+            dir.join("link").join(name)
+        }
+        _ => dir.join(name),
+    };
     if d.stale() {
         std::fs::write(tmp_of(&dest), vec![0xEEu8; 40000]).unwrap();
     }
@@ -729,7 +760,7 @@ fn oracles(out: &mut Out, sc: &Script, o: &Obs, op: &str) {
         ),
     }
     // a pull that fails before it creates its temp file cannot be blamed for a stale one
-    let never_created = sc.open != Open::Ok || !sc.puller.tags_ok(sc.zstd, sc.beve);
+    let never_created = sc.open != Open::Ok || !sc.puller.tags_ok(sc.zstd, sc.beve) || sc.dest == Dest::NoParent;
     if o.tmp && !(sc.dest.stale() && never_created) {
         out.oracle_fail(&format!("commit.{p}.temp-left"), "the .svspart sibling exists after the in-process pull returned", &ops);
     }
@@ -853,6 +884,88 @@ impl Ctx {
     }
 }
 
+impl Ctx {
+    /// `sibling <i> <name>`: which other directory entry exists while `verify` runs = the temp sibling's name.
+    fn exec_sibling(&mut self, out: &mut Out, idx: &str, name: &str) {
+        let op = format!("sibling {} {}", idx, hex(name.as_bytes()));
+        out.begin(&op);
+        let (res, dir) = self.fresh();
+        let _ = std::fs::remove_dir_all(&dir);
+        std::fs::create_dir_all(&dir).unwrap();
+        let dest = dir.join(name);
+        let sc = make_script(Puller::Trailer, false, b"payload-and-trailer", &[5], None, false);
+        self.fake.register(&res, &sc, 0);
+        let listing: Arc<Mutex<Vec<String>>> = Arc::new(Mutex::new(vec![]));
+        let (l2, d2, n2) = (listing.clone(), dir.clone(), name.to_string());
+        *VERIFY_HOOK.lock().unwrap() = Some(Box::new(move || {
+            let mut v: Vec<String> = std::fs::read_dir(&d2).map(|r| r.filter_map(|e| e.ok()).map(|e| e.file_name().to_string_lossy().to_string()).collect()).unwrap_or_default();
+            v.retain(|x| *x != n2);
+            v.sort();
+            *l2.lock().unwrap() = v;
+        }));
+        let seen = Arc::new(Mutex::new(Seen::default()));
+        let r = call_puller(&self.rt, Puller::Trailer, self.fake.addr, &res, &dest, 7, true, seen, None);
+        self.fake.unregister(&res);
+        *VERIFY_HOOK.lock().unwrap() = None;
+        let l = listing.lock().unwrap().clone();
+        let after: Vec<String> = std::fs::read_dir(&dir).map(|r| r.filter_map(|e| e.ok()).map(|e| e.file_name().to_string_lossy().to_string()).collect()).unwrap_or_default();
+        if r.is_err() || after != vec![name.to_string()] {
+            out.oracle_fail("commit.sibling.pull-failed-or-stray-entry", &format!("pull to {name:?}: result ok={}, directory afterwards {after:?}", r.is_ok()), &[op.clone()]);
+        }
+        let _ = std::fs::remove_dir_all(&dir);
+        out.count("sibling.names");
+        out.case(&op, &format!("{idx} temp {}", l.iter().map(|x| hex(x.as_bytes())).collect::<Vec<_>>().join(",")), true);
+    }
+
+    /// `nest <i> <nameA> <nameB> SCRIPT_A :: SCRIPT_B`: pull B (blocking puller) runs to its end inside
+    /// pull A's `verify`, in the same directory, i.e. while A's temp file is complete and not yet renamed.
+    fn exec_nest(&mut self, out: &mut Out, idx: &str, na: &str, nb: &str, a: &Script, b: &Script) {
+        let op = format!("nest {} {} {} {} :: {}", idx, hex(na.as_bytes()), hex(nb.as_bytes()), a.words(), b.words());
+        out.begin(&op);
+        let (ra, dir) = self.fresh();
+        let (rb, _) = self.fresh();
+        let _ = std::fs::remove_dir_all(&dir);
+        std::fs::create_dir_all(&dir).unwrap();
+        let da = prepare_named(&dir, na, a.dest);
+        let db = prepare_named(&dir, nb, b.dest);
+        self.fake.register(&ra, a, 0);
+        self.fake.register(&rb, b, 0);
+        let bres: Arc<Mutex<Option<bool>>> = Arc::new(Mutex::new(None));
+        {
+            let (bres, db, rb, b, addr) = (bres.clone(), db.clone(), rb.clone(), b.clone(), self.fake.addr);
+            *VERIFY_HOOK.lock().unwrap() = Some(Box::new(move || {
+                // a blocking pull on a plain thread (never a nested block_on)
+                let h = std::thread::spawn(move || {
+                    let rt = tokio::runtime::Builder::new_current_thread().enable_all().build().unwrap();
+                    call_puller(&rt, b.puller, addr, &rb, &db, b.trailer, b.verify_ok, Arc::new(Mutex::new(Seen::default())), None).is_ok()
+                });
+                *bres.lock().unwrap() = h.join().ok();
+            }));
+        }
+        let seen = Arc::new(Mutex::new(Seen::default()));
+        let r = call_puller(&self.rt, a.puller, self.fake.addr, &ra, &da, a.trailer, a.verify_ok, seen.clone(), None);
+        *VERIFY_HOOK.lock().unwrap() = None;
+        self.fake.unregister(&ra);
+        self.fake.unregister(&rb);
+        let oa = Obs { ok: r.is_ok(), dest: dest_state(&da, a.dest), tmp: tmp_present(&da), seen: seen.lock().unwrap().clone() };
+        let bran = *bres.lock().unwrap();
+        let ob = Obs { ok: bran == Some(true), dest: dest_state(&db, b.dest), tmp: tmp_present(&db), seen: Seen::default() };
+        let _ = std::fs::remove_dir_all(&dir);
+        if bran.is_none() {
+            out.oracle_fail("commit.nest.inner-pull-did-not-run", "verify of the outer pull was not reached or the inner pull panicked", &[op.clone()]);
+        }
+        oracles(out, a, &oa, &op);
+        oracles(out, b, &Obs { seen: Seen::default(), ..ob_clone(&ob) }, &op);
+        out.count("nest.pairs");
+        let line = format!("{idx} A ret {} dest {} tmp {} B ret {} dest {} tmp {}", if oa.ok { "ok" } else { "err" }, show_dest(&oa.dest), oa.tmp as u8, if ob.ok { "ok" } else { "err" }, show_dest(&ob.dest), ob.tmp as u8);
+        out.case(&op, &line, true);
+    }
+}
+
+fn ob_clone(o: &Obs) -> Obs {
+    Obs { ok: o.ok, dest: o.dest.clone(), tmp: o.tmp, seen: o.seen.clone() }
+}
+
 fn nontrivial(sc: &Script) -> bool {
     // at least one chunk was delivered, or the script fails for a reason other than a dead open
     sc.open == Open::Ok && sc.wire.iter().any(|r| matches!(r, Resp::Chunk(b, _) if !b.is_empty()))
@@ -882,6 +995,8 @@ fn count_case(out: &mut Out, sc: &Script, kind: &str) {
         "verify-reject"
     } else if sc.puller.has_trailer() && sc.expected_content().is_none() && sc.dest != Dest::Dir {
         "short-trailer"
+    } else if sc.dest == Dest::NoParent {
+        "create-refused"
     } else if sc.dest == Dest::Dir {
         "rename-refused"
     } else if sc.expected_content().is_none() {
@@ -1573,6 +1688,39 @@ fn gen_and_run(args: &Args, out: &mut Out, ctx: &mut Ctx) {
         }
     }
 
+    // (A'') where the temp file lives: names, parents, and two pulls side by side in one directory
+    for name in ["out", "out.bin", "out.tar.gz", ".hidden", "a b.dat", "x.svspart", "caf\u{e9}.bin", "out.bin.svspart.bak"] {
+        ctx.exec_sibling(out, &next("n"), name);
+    }
+    for &p in &PULLERS {
+        for zstd in [false, true] {
+            let logical: Vec<u8> = rng.bytes(30).iter().map(|b| b | 1).collect();
+            for (dest, fault) in [(Dest::NoParent, None), (Dest::SymParent, None), (Dest::SymParent, Some((1usize, Resp::Cut)))] {
+                let mut sc = make_script(p, zstd, &logical, &[11, 13], fault, false);
+                sc.dest = dest;
+                sc.trailer = if p.has_trailer() { 4 } else { 0 };
+                ctx.exec_script(out, &next("s"), &sc, 0);
+            }
+        }
+    }
+    for &pa in &[Puller::Trailer, Puller::VerifiedAsync, Puller::TrailerAsync] {
+        for &pb in &[Puller::File, Puller::Trailer] {
+            for (na, nb) in [("out.bin", "out.txt"), ("data", "data.bin"), ("a.svspart.x", "a")] {
+                for bfault in [None, Some((1usize, Resp::Error))] {
+                    let la: Vec<u8> = rng.bytes(40).iter().map(|b| b | 1).collect();
+                    let lb: Vec<u8> = rng.bytes(33).iter().map(|b| b | 1).collect();
+                    let mut a = make_script(pa, false, &la, &[9, 17], None, false);
+                    a.trailer = if pa.has_trailer() { 6 } else { 0 };
+                    a.dest = *rng.pick(&[Dest::None, Dest::Old]);
+                    let mut b = make_script(pb, false, &lb, &[8, 8], bfault, false);
+                    b.trailer = if pb.has_trailer() { 3 } else { 0 };
+                    b.dest = *rng.pick(&[Dest::None, Dest::Old]);
+                    ctx.exec_nest(out, &next("p"), na, nb, &a, &b);
+                }
+            }
+        }
+    }
+
     // (B) random scripts: sizes around io::copy's 8 KiB buffer, empty chunks, mixed write sizes for TrailerHold
     let nrand = if thorough { 1500 } else { 260 };
     for _ in 0..nrand {
@@ -1847,6 +1995,21 @@ fn replay(ops: Vec<String>, out: &mut Out, ctx: &mut Ctx) {
                         ctx.exec_script(out, &idx, &sc, fl);
                         if sc.open != Open::Err {
                             break;
+                        }
+                    }
+                }
+            }
+            "sibling" => {
+                if let Some(n) = unhex(w[2]).and_then(|b| String::from_utf8(b).ok()) {
+                    ctx.exec_sibling(out, &idx, &n);
+                }
+            }
+            "nest" => {
+                if w.len() > 5 {
+                    if let (Some(na), Some(nb), Some((a, rest))) = (unhex(w[2]).and_then(|b| String::from_utf8(b).ok()), unhex(w[3]).and_then(|b| String::from_utf8(b).ok()), Script::parse(&w[4..])) {
+                        let rw: Vec<&str> = rest.iter().map(|x| x.as_str()).collect();
+                        if let Some((b, _)) = Script::parse(&rw) {
+                            ctx.exec_nest(out, &idx, &na, &nb, &a, &b);
                         }
                     }
                 }
